@@ -14,7 +14,7 @@ pub fn info() -> PropInfo {
     PropInfo {
         id: "C15",
         level: "exploration",
-        rule: "bounded-exhaustive: every line of <=5 tokens over {space,tab,-,//,TXTPP#,TXTPP,#,include,after,run,temp,tag,write,inclde,x,é} through detect_from, and every (directive of <=4 tokens, distinct by (ws,prefix,type)) x (next line of <=5 tokens (quick: 4) over {space,tab,-,//,TXTPP#,run,x,é,'# '}) through add_line, each compared with an independent recogniser written from the statement; plus sampled pairs pushed through whole-file builds and compared with the reference model, including two-pass files (a generated dependency is included first) whose continuation text looks like an include/after of the file itself or of an unrequested source. A case is non-trivial when the line contains TXTPP# (detection), or the pair is accepted by either side, or the directive is multi-line capable and the next line starts with its leading whitespace (a near miss); distinct = distinct line / (ws,prefix,type,next) strings.",
+        rule: "bounded-exhaustive: every line of <=5 tokens over {space,tab,-,//,TXTPP#,TXTPP,#,include,after,run,temp,tag,write,inclde,x,é} through detect_from, and every (directive of <=4 tokens, distinct by (ws,prefix,type)) x (next line of <=5 tokens (quick: 4) over {space,tab,-,//,TXTPP#,run,x,é,'# '}) through add_line, each compared with an independent recogniser written from the statement; plus sampled pairs pushed through whole-file builds and compared with the reference model, including two-pass files (a generated dependency is included first) whose continuation text looks like an include/after of the file itself or of an unrequested source. A case is non-trivial when the line contains TXTPP# (detection), or the pair is accepted by either side, or the directive is multi-line capable and the next line starts with its leading whitespace (a near miss); distinct = distinct line / (ws,prefix,type,next) strings. Later additions: every capitalisation class of every directive name in five line shapes; end-to-end variants with mixed line terminators and a byte order mark; two-pass files; clean-mode grammar (two temp blocks with the same prefix separated by text / back to back with different prefixes, built and cleaned for every directive shape).",
         assumptions: &[
             "reference recogniser (harness/src/model.rs detect/continues) is a faithful reading of the statement",
             "blanks are space and tab only (DESIGN §4.3 D2)",
